@@ -224,6 +224,7 @@ impl Family for C06Family {
             real: &["Client::{register,authenticate}", "Authenticator::{make_credential,get_assertion,get_info}", "U2fApi", "Debug impls of Passkey and of every response type", "serde Serialize impls of every response type"],
             stubs: &["executor", "SimStore seam", "SimUser", "seeded RNG behind the hook", "boundary monitor"],
             crash_isolated: false,
+            fresh_thread: true,
         }
     }
 
